@@ -2,6 +2,7 @@ import Hgxv.Proofs.C17Init
 import Hgxv.Proofs.C17Book
 import Hgxv.Proofs.C17EM
 import Hgxv.Proofs.C17Ex
+import Hgxv.Proofs.C17Norm
 /-! # C17 — Hypergraph-MT / spectral clustering: valid reproducible output, EM ascends
 
 Property theorems about the model `Hgxv/Model/C17.lean`.  The numerical definitions of the model are generic in the
@@ -77,6 +78,24 @@ theorem C17_isolated_rows_zero (c : Cfg α) (hc : CfgOk c) (r0 : Bool) (uk : Lis
     intro k
     unfold emSweep
     exact uSweep_zero_row c hc i p _ (by simpa using h0) k
+
+/-- **normalised rows (`normalizeU = True`).**  The root finder is outside the proof; its contract is `LamOk`: the
+multiplier consumed by the update of node `i` is the root of `Σ_{k ∈ ks} num_k / (λ + den_k) = 1` on the branch where every
+term with a positive numerator has a positive denominator (D36 was a multiplier violating one of the two clauses).  Then,
+for every reachable state (`Inv`), non-negative responsibilities and an upper clamp `≥ 1` (`1e2` in the code): `check_u`
+does not fire, every recomputed entry is the non-negative raw value `num_k / (λ + den_k)` (set to 0 below the threshold),
+and the new row sums to one up to `K · min_value_par`.  (`uNode` writes `vNew c s i` into row `i`.) -/
+theorem C17_normalized_row (c : Cfg α) (hc : CfgOk c) (hn : c.normU = true)
+    (hmax : ∀ t v, c.maxv = some (t, v) → 1 ≤ t) (s : St α) (hs : Inv c s) (i : Nat) (hi : i < c.N)
+    (hnum : ∀ k, 0 ≤ uNum c s.rho i k) (hl : LamOk c s i) :
+    negNew c s i = false ∧
+    (∀ k, k < c.K → actK c s i k = true →
+        vNew c s i k = clampLow c (rawNew c s i k) ∧ 0 ≤ rawNew c s i k ∧ rawNew c s i k ≤ 1) ∧
+    1 - (c.K : α) * c.minv ≤ sumR c.K (vNew c s i) ∧ sumR c.K (vNew c s i) ≤ 1 + (c.K : α) * c.minv :=
+  ⟨nrm_negNew_false c hn s i hnum hl,
+   fun k hk ha => ⟨nrm_vNew_active c hc hn hmax s hs i hi hnum hl k hk ha, nrm_rawNew_nonneg c hn s i hnum hl k hk ha,
+                  nrm_rawNew_le_one c hn s i hnum hl k hk ha⟩,
+   nrm_row_sum_bounds c hc hn hmax s hs i hi hnum hl⟩
 
 end field
 
@@ -264,3 +283,11 @@ example : ((runReal (1 : Int) 1 1 6 (-100) [-9, -5, -5, -5, -5, -5]).rows.map (f
 example : (nonIsolates 3 [[0, 1]]) = [0, 1] ∧
     ({ N := 3, K := 1, D := 2, edges := [[0, 1]], A := [1], minv := 0, maxv := none, eps := 0, rtol := 1,
        normU := false } : Cfg Int).isIso 2 = true := by decide
+
+/-- non-vacuity of `C17_normalized_row`: two nodes, one hyperedge, K = 2, the code's thresholds; the multiplier `1/2` -/
+example : negNew cNorm sNorm 0 = false ∧ 1 - (cNorm.K : ℚ) * cNorm.minv ≤ sumR cNorm.K (vNew cNorm sNorm 0) :=
+  let h := C17_normalized_row cNorm cNorm_ok rfl
+    (by intro t v h; simp only [cNorm, Option.some.injEq, Prod.mk.injEq] at h; obtain ⟨rfl, _⟩ := h; norm_num)
+    sNorm sNorm_inv 0 (by decide) sNorm_num sNorm_lamOk
+  ⟨h.1, h.2.2.1⟩
+example : sumR cNorm.K (vNew cNorm sNorm 0) = 1 := by decide +kernel
